@@ -9,6 +9,7 @@ Oracle: inspect.signature.
 import abc
 import inspect
 import itertools
+import types
 
 from zope.interface import Interface
 from zope.interface.interface import fromFunction, fromMethod, InterfaceClass, Method
@@ -37,11 +38,14 @@ def signatures(maxpo=2, maxpk=2, maxko=2):
                                 yield (npo, npk, nd, star, nko, kod, kw, loc)
 
 
+RECEIVERS = ['self', 'this', 'cls', '_self']      # the instance parameter need not be called self
+
+
 def source(sig, self_):
     npo, npk, nd, star, nko, kod, kw, loc = sig
     names = ['p%d' % i for i in range(npo)] + ['q%d' % i for i in range(npk)]
     if self_:
-        names.insert(0, 'self')
+        names.insert(0, RECEIVERS[(npo + 2 * npk + nd) % len(RECEIVERS)])
         if npo:
             npo += 1
     parts = []
@@ -96,6 +100,14 @@ def eval_one(sig, kind):
     except SyntaxError:
         return 'skip', None
     f = d['f']
+    if f.__defaults__:
+        # a sibling made from the *same code object* with other defaults (what a
+        # factory function produces) is described first: nothing of it may stick
+        sib = types.FunctionType(f.__code__, f.__globals__, 'f',
+                                 tuple(('sibling', i) for i in range(len(f.__defaults__))))
+        sib.__kwdefaults__ = f.__kwdefaults__
+        fromFunction(sib)
+        fromFunction(sib, imlevel=1) if self_ else None
     f.tagged = 'yes'
     f.other = (1, 2)
     if kind == 'function':
